@@ -529,7 +529,7 @@ function dict_update(dict, k, v)
 end
 
 function dict_remove(dict, k)
-    dict[k] = nil
+    dict[tostring(k)] = nil
 end
 
 function dict_get(dict, k)
